@@ -135,6 +135,22 @@ func auxRaceC13() int {
 			n++
 		}
 	}
+	// Run left by unwinding: a device callback panics, the embedder recovers
+	for rep := 0; rep < 200; rep++ {
+		p := &progs[rep%3]
+		mem := obs.NewMem(bg)
+		mem.Poke(0x0100, p.code...)
+		pm := &plainMem{m: mem, panicAt: 50 + rep}
+		cpu := &z80.CPU{Memory: pm, IO: &obs.IO{X: 1, Fixed: true}}
+		cpu.PC, cpu.SP = 0x0100, 0xF000
+		ctx, cancel := context.WithCancel(context.Background())
+		func() {
+			defer func() { recover() }()
+			cpu.Run(ctx)
+		}()
+		cancel()
+		n++
+	}
 	// goroutines must drain
 	deadline := time.Now().Add(5 * time.Second)
 	for runtime.NumGoroutine() > before && time.Now().Before(deadline) {
@@ -159,9 +175,17 @@ type plainMem struct {
 	m         *obs.Mem
 	cancelled int32
 	after     int
+	panicAt   int // panic at this access (0 = never)
+	count     int
 }
 
 func (p *plainMem) tick() {
+	if p.panicAt > 0 {
+		p.count++
+		if p.count == p.panicAt {
+			panic("device failure injected by the harness")
+		}
+	}
 	if atomic.LoadInt32(&p.cancelled) != 0 {
 		p.after++
 		if p.after > 3000000 {
